@@ -68,6 +68,9 @@ def dmrg_matvec_python(A, x, y0 = None, nswp = 20, eps = 1e-12, rmax = 32768, ki
     Ry = y0.R.copy()
 
     d = len(x.N)
+    if d == 1:
+        # a single core: there is no bond to sweep over, the product is exact
+        return A @ x
     if isinstance(rmax, int):
         rmax = [1] + [rmax]*(d-1) + [1]
 
@@ -255,6 +258,9 @@ def dmrg_hadamard_python(z, x, y0 = None, nswp = 20, eps = 1e-12, rmax = 32768, 
     Ry = y0.R.copy()
     
     d = len(x.N)
+    if d == 1:
+        # a single core: there is no bond to sweep over, the product is exact
+        return z * x
     if isinstance(rmax,int):
         rmax = [1] + [rmax]*(d-1) + [1]
         
